@@ -1,0 +1,36 @@
+//go:build verif
+
+package pogreb
+
+// Contracts for the writing half of datalog.go (GoVC, see /verif/DESIGN.md). Comment-only file.
+
+// files behind handles that were open before the call keep their identity, stay open and only grow:
+// nothing below their old length changes (APPEND-ONLY), their durable length does not shrink
+//@ spec func openFilesOnlyGrow() bool = forall h ref :: old(hOpen[h]) ==> hOpen[h] && fidOf[h] == old(fidOf[h]) && fLen[fidOf[h]] >= old(fLen[fidOf[h]]) && fDur[fidOf[h]] >= old(fDur[fidOf[h]]) && fDur[fidOf[h]] <= fLen[fidOf[h]]
+
+//@ func (dl *datalog) swapSegment() (err error) [C02,C03,C06]
+//@   trusted not verified yet: range over the 32767-entry table, openSegment, gob
+//@   requires table: dl != nil && dl.opts != nil && dl.opts.FileSystem != nil && dlTable(dl) && dlDistinct(dl)
+//@   ensures inv: err == nil ==> dlInv(dl) && dl.segments[dl.curSeg.id] == dl.curSeg && !dl.curSeg.meta.Full
+//@   ensures kept: forall i int :: 0 <= i && i < 32767 && old(dl.segments[i]) != nil ==> dl.segments[i] == old(dl.segments[i])
+//@   ensures new: forall i int :: 0 <= i && i < 32767 && old(dl.segments[i]) == nil && dl.segments[i] != nil ==> dl.segments[i] == dl.curSeg && fresh(dl.curSeg) && fresh(dl.curSeg.file) && fresh(dl.curSeg.meta) && dl.curSeg.file.size == 512
+//@   ensures files: forall h ref :: old(hOpen[h]) ==> hOpen[h] && fidOf[h] == old(fidOf[h]) && fLen[fidOf[h]] == old(fLen[fidOf[h]]) && fDur[fidOf[h]] == old(fDur[fidOf[h]]) && fData[fidOf[h]] == old(fData[fidOf[h]])
+//@   ensures dir: forall n string :: old(dirFid[dl.opts.FileSystem][n]) != 0 ==> dirFid[dl.opts.FileSystem][n] == old(dirFid[dl.opts.FileSystem][n])
+//@   ensures created: (forall i int :: 0 <= i && i < 32767 && old(dl.segments[i]) != nil ==> old(dl.segments[i].meta.Full)) && err == nil ==> fresh(dl.curSeg) && fresh(dl.curSeg.file) && fresh(dl.curSeg.meta) && dl.curSeg.file.size == 512
+//@   ensures err: err != nil ==> !isNotExist(err)
+//@   modifies dl.curSeg, dl.segments, dl.maxSequenceID, dirFid[dl.opts.FileSystem], fLen, fDur, fData, hOpen, hPos, fidOf, fidName
+
+//@ func (dl *datalog) writeRecord(data []byte, rt recordType) (segID uint16, off uint32, err error) [C03,C05,C06,C16]
+//@   requires inv: dlInv(dl)
+//@   requires [C06] sealed: dlSealedDurable(dl)
+//@   requires len: len(data) <= 0x80010009
+//@   ensures inv: err == nil ==> dlInv(dl) && dl.segments[dl.curSeg.id] == dl.curSeg
+//@   ensures [C06] sealed: err == nil ==> dlSealedDurable(dl)
+//@   ensures loc: err == nil ==> segID == dl.curSeg.id && off >= 512 && int64(off) + int64(len(data)) == dl.curSeg.file.size
+//@   ensures written: err == nil ==> sameBytes(fData[fidOf[dl.curSeg.file.File]], int(off), contents(data), off(data), len(data))
+//@   ensures kept: forall i int :: 0 <= i && i < 32767 && old(dl.segments[i]) != nil ==> dl.segments[i] == old(dl.segments[i])
+//@   ensures [C03] appendonly: err == nil ==> forall h ref :: old(hOpen[h]) ==> hOpen[h] && fidOf[h] == old(fidOf[h]) && fLen[fidOf[h]] >= old(fLen[fidOf[h]]) && (fidOf[h] != fidOf[dl.curSeg.file.File] ==> fLen[fidOf[h]] == old(fLen[fidOf[h]]) && fData[fidOf[h]] == old(fData[fidOf[h]]) && fDur[fidOf[h]] >= old(fDur[fidOf[h]]))
+//@   ensures [C03] prefix: err == nil ==> forall q int :: 0 <= q && q < int(off) && old(hOpen[dl.curSeg.file.File]) ==> fData[fidOf[dl.curSeg.file.File]][q] == old(fData[fidOf[dl.curSeg.file.File]])[q]
+//@   ensures sizes: forall f *file :: f != dl.curSeg.file && !fresh(f) ==> f.size == old(f.size) && f.File == old(f.File)
+//@   flag lossless
+//@   modifies dl.curSeg, dl.segments, dl.maxSequenceID, any(segmentMeta).Full, any(segmentMeta).PutRecords, any(segmentMeta).DeleteRecords, any(file).size, dirFid[dl.opts.FileSystem], fLen, fDur, fData, hOpen, hPos, fidOf, fidName
